@@ -43,6 +43,8 @@ CHECK_FLAGS = ["--pointer-check", "--bounds-check", "--pointer-overflow-check",
                "--object-bits", "12"]
 
 MIN_UNWIND = 10
+# CaDiCaL (built into this cbmc) is 5-20x faster than the default MiniSat on the memcpy-heavy units
+SOLVER = os.environ.get("VERIF_CBMC_SOLVER", "cadical")
 
 BASE_TRUST = [
     "CBMC 6.11 / DFCC (goto-cc front end, contract instrumentation, bit-precise SAT back end) is sound",
@@ -391,6 +393,7 @@ def _commands(name, main_c, scratch, repo, trace=True, sanity=False):
     # MIN_UNWIND: the DFCC library iterates over the targets of a replaced callee's assigns
     # clause (at most 7 targets in contracts.h); its loops are covered by unwinding assertions too
     cb = ["cbmc", g2] + CHECK_FLAGS + ["--unwind", str(max(u["unwind"], MIN_UNWIND)), "--unwinding-assertions"]
+    cb += ["--sat-solver", u.get("solver") or SOLVER]
     cb += u["extra_cbmc"]
     if trace:
         cb += ["--trace"]
